@@ -188,9 +188,10 @@ example :
     c.ents = [11, 12, 13] ∧ WorldSnap.getComp c 11 9 = some 90 ∧ WorldSnap.getComp c 12 7 = none ∧
     WorldSnap.getParent c 11 = some 13 := by decide
 
-/-- **D22 (recorded finding), kernel-checked on the slice.** A returning client that wrote the component while its link was down
-(value 3 in its queue: `sync_detect` runs whatever the connection state) asks for the snapshot first and sends its queue a
-frame later: the snapshot is built from the host's old value 0 and sets the client back to it, while the client's 3 is on its
+/-- **D22, kernel-checked on the slice** (repaired for components — the queue now leaves ahead of the request, second example;
+still a recorded finding for parent links, which are this slice with the parent's uuid as value and are announced only once
+the state says Connected). A returning client that changed the value while its link was down (3 in its queue: detection
+runs whatever the connection state) asks for the snapshot first and sends its queue a frame later: the snapshot is built from the host's old value 0 and sets the client back to it, while the client's 3 is on its
 way to the host (`up`), which will adopt and relay it — everything drained, the client holds 0 and has announced 3. The
 theorems above start from a returning client with nothing queued (`init_returning`), which is exactly what this history is
 not. -/
@@ -199,6 +200,15 @@ example :
                                  j := { present := true, count := 1, p := { val := some 3, queue := [3] } } }
     let s := Snap.run s0 [.connect, .snapshot, .reactJ, .pollJ 2, .flushJ, .flushJ, .detectJ, .reactJ]
     Snap.Quiescent s ∧ s.j.up = [3] ∧ s.j.p.val = some 0 ∧ s.host.p.val = some 0 := by decide
+
+/-- the repaired order: the queue leaves first, the host applies it (`applyH 3`), the snapshot is built on top of it and brings
+the client its own value back -/
+example :
+    let s0 : Snap.State Nat := { host := { present := true, p := { val := some 0 } },
+                                 j := { present := true, count := 1, p := { val := some 3, queue := [3] } } }
+    let s := Snap.run s0 [.connect, .reactJ, .applyH 3, .snapshot, .pollJ 3, .flushJ, .flushJ, .flushJ, .detectJ, .reactJ, .detectH, .reactH,
+                          .pollJ 1, .flushJ]
+    s.j.p.val = some 3 ∧ s.host.p.val = some 3 ∧ s.j.count = 1 := by decide
 
 /-- **D17 (recorded finding).** The snapshot for client 2 is built while the host is still downloading client 1's
 newer publication (7) that it has already relayed: client 2 queues the owner's announcement first and the host's
